@@ -2334,6 +2334,12 @@ func (se *symExec) loopCommon(pos token.Pos, body *ast.BlockStmt, whole ast.Node
 			}
 			se.params[o] = v.String()
 			se.pinned[o] = true
+		} else if se.emitMode && v.kind == vUnknown && strings.HasSuffix(v.desc, "[*]") {
+			// the value variable of a range statement is shown as the element in rendered call texts too, exactly as
+			// `name := X[i]` inside `for i := range X` is (see execAssign)
+			if _, taken := se.params[o]; !taken {
+				se.params[o] = v.desc
+			}
 		}
 		hav.forget(o.Name())
 		hav.forget(v.desc)
